@@ -10,7 +10,8 @@ LEVEL = "other"
 
 class MainDomain(TermDomain):
     def __init__(self, facts, results, ndesc=2, io_fail=True):
-        super().__init__(uninterp=lambda n: True)
+        # helpers of the binary itself are followed; everything else (the library, std) is an uninterpreted term
+        super().__init__(uninterp=lambda n: facts.fn(n, "any") is None)
         self.facts = facts
         self.results = results  # how many results the query iterator may yield
         self.ndesc = ndesc
